@@ -97,3 +97,11 @@ impl From<usize> for ConnectionId {
         ConnectionId(value)
     }
 }
+
+#[cfg(litep2p_verif)]
+impl ConnectionId {
+    /// Numeric value of the connection id (verification hook).
+    pub fn verif_as_usize(&self) -> usize {
+        self.0
+    }
+}
